@@ -172,3 +172,29 @@ package astconv
 //@   ensures err == nil ==> (r.Chord != nil) == is(v, *ast.Chord)
 //@   ensures err == nil && isSyl(c) && r.Key != nil ==> sylScale(c) != nil && sylScale(c).Key == *r.Key
 //@   ensures err == nil && isSyl(c) && r.Key == nil ==> sylScale(c) == old(sylScale(c))
+
+// ---- mixed notation is refused (C09) ----
+
+// degreeType reads only the token's text: letters A-G are note names; anything else is a number if it parses as one
+//@ func ASTTypeClassifier.degreeType returns (t)
+//@   pure
+//@   requires wfDegTok(v)
+//@   ensures isLetterTok(tv(v.Degree)) ==> t == SyllableAST
+//@   ensures t == SyllableAST ==> isLetterTok(tv(v.Degree))
+//@   ensures t == UnknownASTType || t == SyllableAST || t == DegreeAST
+//@   ghostensures t == spec.degKind(tv(v.Degree))
+
+// the body of Classify's walk over the tree's nodes (the walk itself runs through a goroutine and a channel and is
+// not modelled): a chord degree in unknown notation, or in a notation other than the first one seen, stops the
+// walk with an error; anything else lets it go on, remembering the first notation
+//@ define degOf(x) as(x, *ast.ChordDegree)
+//@ define isDeg(x) is(x, *ast.ChordDegree)
+//@ func ASTTypeClassifier.Classify$1 returns (cont)
+//@   modifies jump$1, isInit, astType, #2, #3
+//@   allocs []Iface
+//@   requires captured("jump$1") == 0 && (isDeg(x) ==> wfDegTok(degOf(x)))
+//@   ensures !isDeg(x) ==> cont && isInit == old(isInit) && astType == old(astType)
+//@   ensures isDeg(x) ==> cont == (spec.degKind(tv(degOf(x).Degree)) != UnknownASTType && (old(isInit) || spec.degKind(tv(degOf(x).Degree)) == old(astType)))
+//@   ensures isDeg(x) && cont ==> !isInit && astType == spec.degKind(tv(degOf(x).Degree))
+//@   ensures !cont ==> captured("#3") != nil
+//@   ensures cont == (captured("jump$1") == 0) && captured("jump$1") >= 0
